@@ -449,6 +449,27 @@ def generate(seed=20260923, per_profile=24):
                 full = '#pragma mapfile "map/any.msgm"\n\nmeta {\n    table: {\n%s    }\n}\n\nscript main {\n%s}\n' % (table, main)
                 for nm in names[1:]:
                     full += 'script %s {\n%s}\n' % (nm, g.script_body(rng.choice([1, 3, 6])))
+            # named constants passed straight to instructions (their values end up in the debug info)
+            const_items = ''
+            if rng.random() < 0.5:
+                int_ops = [op for op, sg in prof.sigs.items() if sig_kinds(sg) and all(c == 'S' for c in sig_kinds(sg))]
+                flt_ops = [op for op, sg in prof.sigs.items() if sig_kinds(sg) == ['f']]
+                uses = ''
+                for j in range(rng.randint(1, 3)):
+                    if int_ops and (not flt_ops or rng.random() < 0.6):
+                        nm = 'GC%d' % j
+                        const_items += 'const int %s = %s;\n' % (nm, rng.choice(['%d' % rng.randint(-50, 5000), '%d * %d' % (rng.randint(2, 9), rng.randint(2, 99)), '(%d + %d) %% %d' % (rng.randint(1, 99), rng.randint(1, 99), rng.randint(2, 9)), '0x%x' % rng.randint(0, 65535)]))
+                        op = rng.choice(int_ops)
+                        n = len(sig_kinds(prof.sigs[op]))
+                        uses += '    ins_%d(%s);\n' % (op, ', '.join([nm] + [g.int_lit() for _ in range(n - 1)]))
+                    elif flt_ops:
+                        nm = 'GF%d' % j
+                        const_items += 'const float %s = %s;\n' % (nm, rng.choice(['1.5', '-0.25', '2.0 * 3.5', '100.0 / 8.0']))
+                        uses += '    ins_%d(%s);\n' % (rng.choice(flt_ops), nm)
+                main = main + uses
+                if full is not None:
+                    full = full.replace('script main {\n', const_items + 'script main {\n', 1).replace(main[:-len(uses)] + '}', main + '}', 1) if uses else full
+                extra_items = const_items + extra_items
             mapfile, enum_sigs = mapfile_for(prof, rng.random() < 0.5, rng)
             if enum_sigs:
                 kinds = ['KindZero', 'KindOne', 'KindSeven', 'KindMinus', '3', '1', 'GenKind.KindOne']
